@@ -179,6 +179,7 @@ pub trait Property: Sync {
     }
 }
 
+#[allow(dead_code)]
 pub struct RunRecord<C> {
     pub index: u64,
     /// kept only for samples (first few runs) and for violating runs
